@@ -9,8 +9,9 @@ pub fn run(args: &[String]) {
   let lang: SupportLang = args[0].parse().expect("lang");
   let st: MatchStrictness = args[1].parse().expect("strictness");
   let p = Pattern::try_new(&args[2], lang).expect("pattern").with_strictness(st);
-  println!("pattern node: {:?}", p.node);
+  println!("pattern node: {:?} potential_kinds: {:?}", p.node, p.potential_kinds());
   let sg = lang.ast_grep(&args[3]);
+  println!("find_all: {:?}", sg.root().find_all(&p).map(|m| (m.range().start, m.range().end)).collect::<Vec<_>>());
   for n in sg.root().dfs() {
     let m = catch_unwind(AssertUnwindSafe(|| p.match_node(n.clone()).is_some()));
     let l = catch_unwind(AssertUnwindSafe(|| p.get_match_len(n.clone())));
